@@ -134,6 +134,59 @@ def h_expand_mx_flow(eng):
     eng.prove("flow.expand_mx_unused_in_generator", z3.BoolVal(not hits), lines=hits)
 
 
+def h_index_expression_flow(eng):
+    """A subscript expression of the loop variable, x[f(i)], is an MX whose STRUCTURE depends on inline_functions (Generator.get_integer
+    builds it with F.call(..., *function_mode): inlined operations or one call node).  Its VALUES at the loop values do not.  The
+    ForLoop class may therefore only evaluate it -- hand it to ca.Function as the output expression and call that function on the
+    loop values -- besides asking what kind of object it is; differentiating it, asking for its operations or testing whether it
+    is constant would let a representation option decide the subscripts."""
+    mod = eng.load_module(GEN)
+    tree = eng.source.module_ast(mod.relpath)
+    cls = next(n for n in tree.body if isinstance(n, ast.ClassDef) and n.name == "ForLoop")
+    eng.source.record(mod.relpath, cls, GEN + ":ForLoop(def-use)")
+    par = parents(tree)
+    eng.cover("flow.index_expression")
+    methods = {f.name: f for f in cls.body if isinstance(f, ast.FunctionDef)}
+    todo = [(f, "index_expr") for f in methods.values() if any(a.arg == "index_expr" for a in f.args.args + f.args.kwonlyargs)]
+    seen, bad = set(), []
+    while todo:
+        f, name = todo.pop()
+        if (f.name, name) in seen:
+            continue
+        seen.add((f.name, name))
+        for u in ast.walk(f):
+            if not (isinstance(u, ast.Name) and u.id == name and isinstance(u.ctx, ast.Load)):
+                continue
+            p = par.get(u)
+            if isinstance(p, ast.Call) and isinstance(p.func, ast.Name) and p.func.id == "isinstance" and p.args and p.args[0] is u:
+                continue                                  # what kind of object
+            if isinstance(p, ast.Compare) and all(isinstance(o, (ast.Is, ast.IsNot)) for o in p.ops):
+                continue                                  # identity with the loop variable
+            if isinstance(p, ast.List) and isinstance(par.get(p), ast.Call) and isinstance(par[p].func, ast.Attribute) and par[p].func.attr == "Function" \
+                    and len(par[p].args) >= 3 and par[p].args[2] is p:
+                continue                                  # the output expression of a function that is then evaluated
+            if isinstance(p, ast.Call) and isinstance(p.func, ast.Attribute) and isinstance(p.func.value, ast.Name) and p.func.value.id == "self" \
+                    and p.func.attr in methods:
+                callee = methods[p.func.attr]
+                formals = [a.arg for a in callee.args.args][1:]
+                if u in p.args and p.args.index(u) < len(formals):
+                    todo.append((callee, formals[p.args.index(u)]))
+                    continue
+            if isinstance(p, ast.Call) and isinstance(p.func, ast.Name) and u in p.args:
+                # a helper defined inside this method or at module level: followed into its parameter
+                local = [n for n in ast.walk(f) if isinstance(n, ast.FunctionDef) and n is not f and n.name == p.func.id] + \
+                        [n for n in tree.body if isinstance(n, ast.FunctionDef) and n.name == p.func.id]
+                if local and p.args.index(u) < len(local[0].args.args):
+                    todo.append((local[0], local[0].args.args[p.args.index(u)].arg))
+                    continue
+            if isinstance(p, ast.keyword) and isinstance(par.get(p), ast.Call) and isinstance(par[p].func, ast.Attribute) and \
+                    isinstance(par[p].func.value, ast.Name) and par[p].func.value.id == "self" and par[p].func.attr in methods:
+                todo.append((methods[par[p].func.attr], p.arg))
+                continue
+            bad.append((f.name, u.lineno))
+    eng.prove("flow.loop_subscript_expressions_are_only_evaluated_never_inspected", z3.BoolVal(bool(seen) and not bad), other_uses=bad)
+
+
 def h_metadata_instruction_inspection(eng):
     """The one place where pymoca itself looks INSIDE a CasADi expression whose shape depends on inline_functions -- the list of
     allowed operations of variable_metadata_function's affine shortcut -- must not admit an operation that can hide a non-affine
@@ -145,8 +198,9 @@ def h_metadata_instruction_inspection(eng):
 
 HARNESSES = [("generator.py def-use of unroll_loops / inline_functions", h_generator_flow),
              ("model.py def-use of expand_mx", h_expand_mx_flow),
+             ("generator.py ForLoop: subscript expressions of the loop variable are evaluated, not inspected", h_index_expression_flow),
              ("Model.variable_metadata_function: operations admitted to the affine shortcut", h_metadata_instruction_inspection)]
-EXPECTED_COVER = {"flow.generator", "flow.model", "meta.done"}
+EXPECTED_COVER = {"flow.generator", "flow.model", "flow.index_expression", "meta.done"}
 BOUNDED = True
 LEVEL = "other"
 TRUSTED = ["Python's ast module as the reader of the source", "CasADi: Function.map(name, mode, ...), Function.call(args, always_inline, never_inline) and Function.expand() preserve function values for every mode (this IS the dependency-side content of the property)",
